@@ -152,14 +152,14 @@ def api_moments(d, args):
             kw["control_features"] = args["c"]
         m.load_data(args["X"], args["y"], **kw)
         out[kind + ":index"] = {i: repr(e) for i, e in enumerate(sorted(map(repr, m.index)))}
-        gm = m.gamma(ML.FixedPredictor(h))
+        gm = m.gamma(ML.FixedPredictor(h, args.get("_pred_container", "ndarray"), args.get("_pred_hostile", "reversed")))
         out[kind + ":gamma"] = canon(gm)
         lam = pd.Series(np.linspace(0.1, 2.0, len(m.index)), index=sorted(m.index, key=repr))
         out[kind + ":signed_weights"] = canon(np.asarray(m.signed_weights(lam.reindex(m.index)), float))
         out[kind + ":bound"] = canon(m.bound())
     bgl = red.BoundedGroupLoss(red.SquareLoss(0, 1), upper_bound=0.1)
     bgl.load_data(args["X"], args["y"], sensitive_features=args["g"])
-    out["bgl:gamma"] = canon(bgl.gamma(ML.FixedPredictor(h)))
+    out["bgl:gamma"] = canon(bgl.gamma(ML.FixedPredictor(h, args.get("_pred_container", "ndarray"), args.get("_pred_hostile", "reversed"))))
     return out
 
 
@@ -273,6 +273,12 @@ def build_args(rng, api, d, baseline):
         args[arg], h = wrap(rng, d[arg], kind, name={"g": "grp", "c": "ctl", "y": "lab", "p": "pred", "w": "wt"}[arg])
         hostile |= h
         kinds[arg] = kind
+    if api == "moments" and not baseline:
+        # what the predictor callable returns: ndarray, (n,1) array, or a pandas Series with a non-default index
+        args["_pred_container"] = gen.pick(rng, ["ndarray", "col", "series", "series_hostile", "series_hostile"])
+        args["_pred_hostile"] = gen.pick(rng, ["reversed", "rolled"])
+        kinds["predictor_output"] = args["_pred_container"]
+        hostile |= args["_pred_container"] == "series_hostile"
     return args, kinds, hostile
 
 
@@ -293,7 +299,7 @@ def run_case(cls, key, seed, ctx):
         any_hostile |= hostile
         sigs.append(sorted(kinds.items()))
         wit = {"api": cls, "containers": kinds, "y": d["y"], "groups": d["g"], "control": d["c"], "n": d["n"],
-               "index_labels": {a: (list(map(str, v_.index[:8])) if isinstance(v_, (pd.Series, pd.DataFrame)) else None) for a, v_ in args.items()}}
+               "index_labels": {a: (list(map(str, v_.index[:8])) if isinstance(v_, (pd.Series, pd.DataFrame)) else None) for a, v_ in args.items() if not a.startswith("_")}}
         var = API[cls](d, args)
         compare(ctx, base, var, cls, wit)
     ctx.mark([cls, d["n"], len(set(d["g"])), d["c"] is not None, sigs], len(set(d["g"])) >= 2 and any_hostile,
